@@ -15,6 +15,8 @@ import (
 	"regexp"
 	"sort"
 	"strings"
+	dupa "verifharness/dupa/dup"
+	dupb "verifharness/dupb/dup"
 	"verifharness/ut"
 
 	"github.com/cockroachdb/errors"
@@ -554,6 +556,18 @@ func piiFreeOutputs(e error) *safeOutputs {
 	s := &safeOutputs{}
 	s.add("redact.Sprint(e).Redact()", string(redact.Sprint(e).Redact()))
 	s.add("redact.Sprintf(%+v).Redact()", string(redact.Sprintf("%+v", e).Redact()))
+	// every other verb and flag combination through the redact package too
+	for _, v := range []string{"%s", "%q", "%x", "%#v", "%+#v", "%+q", "%10v", "%.3v", "%d"} {
+		s.add("redact.Sprintf("+v+").Redact()", string(redact.Sprintf(v, e).Redact()))
+	}
+	// ... and as an argument of another error's message, with a verb the caller chose
+	for _, v := range []string{"%#v", "%q", "%+q"} {
+		w := errors.Newf("outer "+v, e)
+		s.add("redact.Sprint(Newf(\"outer "+v+"\", e)).Redact()", string(redact.Sprint(w).Redact()))
+		for i, p := range errors.GetAllSafeDetails(w) {
+			s.add(fmt.Sprintf("GetAllSafeDetails(Newf(\"outer %s\", e))[%d]", v, i), strings.Join(p.SafeDetails, "\n"))
+		}
+	}
 	for i, p := range errors.GetAllSafeDetails(e) {
 		s.add(fmt.Sprintf("GetAllSafeDetails[%d]", i), p.OriginalTypeName+"\n"+p.ErrorTypeMark.FamilyName+"\n"+p.ErrorTypeMark.Extension+"\n"+strings.Join(p.SafeDetails, "\n"))
 	}
@@ -604,6 +618,29 @@ func init() {
 			if !check("after hops "+hopsStr(hops), transfer(o.e, hops)) {
 				return
 			}
+		}
+		// a relay (or a sender without the encoders) that forwards the messages but not the typed
+		// payloads: whatever a decoder rebuilds from the message alone must stay unsafe
+		stripped := errors.EncodeError(context.Background(), o.e)
+		var walk func(x *errorspb.EncodedError)
+		walk = func(x *errorspb.EncodedError) {
+			if w := x.GetWrapper(); w != nil {
+				if !isSecondary(w.Details.ErrorTypeMark.FamilyName) {
+					w.Details.FullDetails = nil
+				}
+				walk(&w.Cause)
+			} else if l := x.GetLeaf(); l != nil {
+				if !isBarrierLike(l.Details.ErrorTypeMark.FamilyName) {
+					l.Details.FullDetails = nil
+				}
+				for _, c := range l.MultierrorCauses {
+					walk(c)
+				}
+			}
+		}
+		walk(&stripped)
+		if !check("received without the typed payloads", errors.DecodeError(context.Background(), stripped)) {
+			return
 		}
 	}
 	oracleTable["C12"] = func(o *octx) {
@@ -979,6 +1016,12 @@ func init() {
 		if !check("local", o.e) {
 			return
 		}
+		// barriers as an older peer sends them: previous type name, plain-text message
+		if legacy := legacyBarriers(o.e); legacy != nil {
+			if !check("received from a peer that uses the previous barrier type name", legacy) {
+				return
+			}
+		}
 		for _, hops := range o.c.Hops {
 			hopsOf = hops
 			if !check("after hops "+hopsStr(hops), transfer(o.e, hops)) {
@@ -1021,6 +1064,14 @@ func init() {
 				}
 				if !strings.Contains(red, "%!"+v[1:]+"(") {
 					o.fail("unsupported verb "+v+" is not refused with the %!verb(type) notation in redactable output", "", red)
+					return false
+				}
+			}
+			for _, v := range []string{"%#v", "%+#v", "%#+v"} {
+				red := string(redact.Sprintf(v, e))
+				o.evals++
+				if ok, _ := markersWellFormed(red); !ok || !strings.Contains(red, "%!v(") {
+					o.fail("the Go-syntax verb "+v+" is not refused in redactable output", "", red)
 					return false
 				}
 			}
@@ -1274,6 +1325,11 @@ func init() {
 				o.fail(why, "", detail)
 				return
 			}
+			if why, detail := sameShortName(); why != "" {
+				o.evals++
+				o.fail(why, "", detail)
+				return
+			}
 		}
 		// total: any panic is caught by runOracles and reported
 		o.evals++
@@ -1445,6 +1501,21 @@ func init() {
 					}
 					if got := fmt.Sprintf(spec, tg.v); got != want {
 						o.fail(fmt.Sprintf("%s of %s differs from fmt's rendering of the Error() string (%s)", spec, tg.name, where), "", firstDiff(got, want))
+						return false
+					}
+				}
+				// '#' wins over '+': the Go-syntax dump, whatever else is set (the dump of a big tree with
+				// stack traces is slow: small local trees only)
+				if nodes := countNodes(e); where == "local" && nodes <= 5 && dumpBudget > 0 {
+					dumpBudget--
+					o.evals++
+					dump := fmt.Sprintf("%#v", tg.v)
+					if a := fmt.Sprintf("%+#v", tg.v); a != dump {
+						o.fail(fmt.Sprintf("%%+#v of %s is not the Go-syntax dump %%#v gives", tg.name), "", firstDiff(a, dump))
+						return false
+					}
+					if a := fmt.Sprintf("%#+v", tg.v); a != dump {
+						o.fail(fmt.Sprintf("%%#+v of %s is not the Go-syntax dump %%#v gives", tg.name), "", firstDiff(a, dump))
 						return false
 					}
 				}
@@ -1863,6 +1934,13 @@ func init() {
 
 func init() {
 	oracleTable["C13"] = func(o *octx) {
+		if strings.HasSuffix(o.c.ID, "-0") || strings.HasSuffix(o.c.ID, "-1") {
+			if why, detail := joinAliasing(); why != "" {
+				o.evals++
+				o.fail(why, "", detail)
+				return
+			}
+		}
 		if o.e == nil {
 			return
 		}
@@ -2036,6 +2114,11 @@ func init() {
 				o.fail(why, "", detail)
 				return
 			}
+			if why, detail := joinAliasing(); why != "" {
+				o.evals++
+				o.fail(why, "", detail)
+				return
+			}
 		}
 		if o.e == nil {
 			return
@@ -2135,6 +2218,13 @@ func sameErr(a, b error) bool {
 
 func init() {
 	oracleTable["C15"] = func(o *octx) {
+		if strings.HasSuffix(o.c.ID, "-0") || strings.HasSuffix(o.c.ID, "-1") {
+			if why, detail := foreignStackPaths(); why != "" {
+				o.evals++
+				o.fail(why, "", detail)
+				return
+			}
+		}
 		ev, extras := report.BuildSentryReport(o.e)
 		o.evals++
 		if o.e == nil {
@@ -2406,12 +2496,18 @@ func opaqueRoundTrip(e error) (string, string) {
 		panic(err)
 	}
 	skip := false
+	nodes := 0
 	var all func(x *errorspb.EncodedError)
 	all = func(x *errorspb.EncodedError) {
 		one := func(d *errorspb.EncodedErrorDetails) {
 			d.ErrorTypeMark.FamilyName += unkSuffix
+			nodes++
 			if d.FullDetails == nil {
 				d.FullDetails = pl
+				if nodes%2 == 0 {
+					// a payload whose protobuf type is not linked into this process either
+					d.FullDetails = &types.Any{TypeUrl: "type.googleapis.com/some.unknown.Payload", Value: []byte{10, 3, 'a', 'b', 'c'}}
+				}
 			} else {
 				var da types.DynamicAny
 				if err := types.UnmarshalAny(d.FullDetails, &da); err == nil {
@@ -2508,6 +2604,57 @@ func sanitizeTruncatedMarkers(r *R) (*R, bool) {
 
 // mcauseShapes: trees around *ut.MCause, a multi-cause error that also has Cause(). std = compare with the
 // standard library (C14), otherwise the algebra of Is (C08): a match in ANY member is a match of the whole.
+// sameShortName: two error types called *dup.Err in two different packages are not equivalent.
+func sameShortName() (string, string) {
+	a, b := &dupa.Err{Msg: "same text"}, &dupb.Err{Msg: "same text"}
+	for round := 0; round < 2; round++ {
+		// (asked in both orders and twice: a name cache must not confuse them later either)
+		if errors.Is(a, b) || errors.Is(b, a) || errors.IsAny(a, goerr.New("x"), b) {
+			return "errors of two different types with the same package and type name (different import paths) and the same message match", fmt.Sprintf("%T (%s) vs %T (%s)", a, errbase.GetTypeKey(a), b, errbase.GetTypeKey(b))
+		}
+		if errors.Is(errors.Mark(goerr.New("m"), a), b) || !errors.Is(errors.Mark(goerr.New("m"), a), &dupa.Err{Msg: "same text"}) {
+			return "Mark(e, r) over a reference whose type shares its short name with another type matches the wrong references", ""
+		}
+		if errbase.GetTypeKey(a) == errbase.GetTypeKey(b) {
+			return "two different Go types get the same type key", string(errbase.GetTypeKey(a))
+		}
+		da, db := transferOnce(errors.Wrap(a, "w"), nil), transferOnce(errors.Wrap(b, "w"), nil)
+		if errors.Is(da, b) || errors.Is(db, a) || !errors.Is(da, a) || !errors.Is(db, b) {
+			return "after transfer, errors of two types sharing a short name are confused", ""
+		}
+	}
+	return "", ""
+}
+
+// joinAliasing: the caller of Join(errs...) keeps ownership of its slice: reusing it afterwards
+// changes nothing in the joined error, and Join does not rearrange it.
+func joinAliasing() (string, string) {
+	a, b, c, d := goerr.New("a"), errors.New("b"), goerr.New("c"), goerr.New("d")
+	for _, withNil := range []bool{false, true} {
+		slots := make([]error, 0, 8)
+		slots = append(slots, a, b)
+		if withNil {
+			slots = append(slots[:1], nil, b, nil)
+		}
+		before := append([]error{}, slots...)
+		j := errors.Join(slots...)
+		for i := range slots {
+			if slots[i] != before[i] {
+				return "Join rearranged the slice it was given", fmt.Sprintf("slot %d", i)
+			}
+		}
+		text, enc := j.Error(), string(marshalEnc(j))
+		for i := range slots {
+			slots[i] = c
+		}
+		slots = append(slots[:0], c, d, c, d)
+		if j.Error() != text || string(marshalEnc(j)) != enc || !errors.Is(j, a) || !errors.Is(j, b) || errors.Is(j, c) || !goerr.Is(j, a) || goerr.Is(j, d) {
+			return "a joined error changes when the caller reuses the slice it passed to Join", fmt.Sprintf("%q -> %q", text, j.Error())
+		}
+	}
+	return "", ""
+}
+
 func mcauseShapes(std bool) (string, string) {
 	a, b, c := goerr.New("member a"), errors.New("member b"), &ut.Plain{Msg: "member c"}
 	vb := ut.Val{Msg: "v", Tag: 3}
@@ -2567,6 +2714,88 @@ func mcauseShapes(std bool) (string, string) {
 			if s, l := goerr.As(e, &vs), errors.As(e, &vl); s && (!l || vs != vl) {
 				return fmt.Sprintf("the standard errors.As finds ut.Val but the library's As does not, on a multi-cause error that also has Cause() (shape %d)", si), ""
 			}
+		}
+	}
+	return "", ""
+}
+
+func countNodes(e error) int {
+	n := 0
+	visitAll(e, func(error) { n++ })
+	return n
+}
+
+// the Go-syntax dumps are slow (they print every program counter of every stack): this many per run
+var dumpBudget = 150
+
+// legacyBarriers: e as received from a peer of the previous library generation: every barrier
+// travels under the previous type name, its message field holds the plain text. nil when e has no barrier.
+func legacyBarriers(e error) error {
+	enc := errors.EncodeError(context.Background(), e)
+	found := false
+	var walk func(x *errorspb.EncodedError)
+	walk = func(x *errorspb.EncodedError) {
+		if w := x.GetWrapper(); w != nil {
+			walk(&w.Cause)
+		} else if l := x.GetLeaf(); l != nil {
+			if strings.HasSuffix(l.Details.ErrorTypeMark.FamilyName, "barriers/*barriers.barrierErr") {
+				found = true
+				l.Details.ErrorTypeMark.FamilyName = strings.TrimSuffix(l.Details.ErrorTypeMark.FamilyName, "barrierErr") + "barrierError"
+				l.Details.OriginalTypeName = l.Details.ErrorTypeMark.FamilyName
+				// plain text as the old peer had it: any bytes, marker runes included
+				l.Message = stripMarkers(l.Message) + " \u203a\u2039 raw \u2039"
+			}
+			for _, c := range l.MultierrorCauses {
+				walk(c)
+			}
+		}
+	}
+	walk(&enc)
+	if !found {
+		return nil
+	}
+	return errors.DecodeError(context.Background(), enc)
+}
+
+// foreignStackPaths: a stack received from a peer whose file names have a drive letter (a colon) or a
+// space: the frames of the report are the frames that were captured, the source prefix is the first one.
+func foreignStackPaths() (string, string) {
+	e := errors.Wrap(errors.New("origin"), "ctx")
+	local, _ := report.BuildSentryReport(e)
+	for _, prefix := range []string{"C:", "/mnt/build dir"} {
+		enc := errors.EncodeError(context.Background(), e)
+		var walk func(x *errorspb.EncodedError)
+		walk = func(x *errorspb.EncodedError) {
+			if w := x.GetWrapper(); w != nil {
+				for i, d := range w.Details.ReportablePayload {
+					w.Details.ReportablePayload[i] = strings.ReplaceAll(d, "\n\t/", "\n\t"+prefix+"/")
+				}
+				walk(&w.Cause)
+			}
+		}
+		walk(&enc)
+		dec := errors.DecodeError(context.Background(), enc)
+		ev, _ := report.BuildSentryReport(dec)
+		if len(ev.Exception) != len(local.Exception) {
+			return "a decoded error whose stack file names contain " + prefix + " gives another number of exceptions", fmt.Sprint(len(ev.Exception), " vs ", len(local.Exception))
+		}
+		for xi, ex := range ev.Exception {
+			lf := local.Exception[xi].Stacktrace
+			if ex.Stacktrace == nil || lf == nil || len(ex.Stacktrace.Frames) != len(lf.Frames) {
+				return "frames lost for a stack whose file names contain " + prefix, ""
+			}
+			for fi, f := range ex.Stacktrace.Frames {
+				want := lf.Frames[fi]
+				if f.Lineno != want.Lineno || f.Function != want.Function || !strings.HasSuffix(f.AbsPath, want.AbsPath) || !strings.HasPrefix(f.AbsPath, prefix) {
+					return "a frame re-parsed from a printed stack whose file names contain " + prefix + " differs from the captured frame",
+						fmt.Sprintf("%s:%d %s vs %s:%d %s", f.AbsPath, f.Lineno, f.Function, want.AbsPath, want.Lineno, want.Function)
+				}
+			}
+		}
+		f, l, _, ok := withstack.GetOneLineSource(dec)
+		lf, ll, _, _ := withstack.GetOneLineSource(e)
+		if !ok || f != lf || l != ll {
+			return "the one-line source of a stack whose file names contain " + prefix + " is wrong", fmt.Sprintf("%s:%d vs %s:%d", f, l, lf, ll)
 		}
 	}
 	return "", ""
